@@ -123,3 +123,69 @@ func harnessC05Panics() {
 		vCover("no-panic")
 	}
 }
+
+//verif:entry property=C05 tier=both bounds="a panicking handler (Once and/or Sequential, sync) followed by an ordinary handler that publishes the same event type once more from inside the delivery; panic handler that may itself publish the event type again (once)" cover="nested-done"
+func harnessC05PanicNested() {
+	c01Log, c01Re = nil, nil
+	once, seq := vBool(), vBool()
+	republish := vBool()
+	var bus *EventBus
+	phCalls, reDone := 0, false
+	bus = New(WithPanicHandler(func(ev any, ht reflect.Type, val any) {
+		phCalls++
+		if republish && !reDone {
+			reDone = true
+			Publish(bus, evA{N: 99}) // e.g. a dead-letter style re-publication
+		}
+	}))
+	var so []SubscribeOption
+	if once {
+		so = append(so, Once())
+	}
+	if seq {
+		so = append(so, Sequential())
+	}
+	h0Runs := 0
+	Subscribe(bus, func(e evA) {
+		h0Runs++
+		c01Rec(0, 0, e.N)
+		panic("h0 fails")
+	}, so...)
+	nested := false
+	Subscribe(bus, func(e evA) {
+		c01Rec(0, 1, e.N)
+		if !nested {
+			nested = true
+			Publish(bus, evA{N: 77})
+		}
+	})
+	Publish(bus, evA{N: 1})
+	log := c01TakeLog()
+	got := func(id, val int) int {
+		c := 0
+		for _, e := range log {
+			if e.id == id && e.val == val {
+				c++
+			}
+		}
+		return c
+	}
+	// the ordinary handler receives every published event exactly once
+	vAssert(got(1, 1) == 1 && got(1, 77) == 1, "other-handler-receives-every-event")
+	if republish {
+		vAssert(got(1, 99) == 1, "other-handler-receives-every-event")
+	}
+	if once {
+		vAssert(h0Runs == 1, "panicking-once-handler-stays-retired")
+		vAssert(phCalls == 1, "panic-handler-once-per-panic")
+		vAssert(HandlerCount[evA](bus) == 1, "once-retired-others-kept")
+	} else {
+		vAssert(h0Runs == phCalls, "panic-handler-once-per-panic")
+		vAssert(got(0, 1) == 1 && got(0, 77) == 1, "panicking-handler-still-receives-later-events")
+		vAssert(HandlerCount[evA](bus) == 2, "handlers-kept")
+	}
+	// still usable
+	Publish(bus, evA{N: 5})
+	vAssert(got(1, 5) == 0, "log-was-taken")
+	vCover("nested-done")
+}
